@@ -717,6 +717,23 @@ static std::vector<Violation> case_c18(const Plan& p, CaseCtx& cx)
             }
         }
     }
+    // the range and the source point handed to the peer: [requested offset, end of the buffer) and the true position of that offset
+    for (size_t i = 0; i < o.rec.lexes.size() && i < r.lexcalls.size(); ++i)
+    {
+        const auto& lx = o.rec.lexes[i];
+        if (lx.end_pos != int64_t(o.rend.bytes.size()))
+        {
+            vs.push_back(make_violation("C18", "lexer_given_wrong_end", "lexer request #" + std::to_string(i) + " was given an end iterator at offset " + std::to_string(lx.end_pos) +
+                ", the buffer ends at " + std::to_string(o.rend.bytes.size()) + "; " + brief, p));
+            return vs;
+        }
+        if (lx.line != r.lexcalls[i].line || lx.col != r.lexcalls[i].col)
+        {
+            vs.push_back(make_violation("C18", "lexer_given_wrong_position", "lexer request #" + std::to_string(i) + " at offset " + std::to_string(lx.pos) + " was told [" + std::to_string(lx.line) + ":" + std::to_string(lx.col) +
+                "], the offset is at [" + std::to_string(r.lexcalls[i].line) + ":" + std::to_string(r.lexcalls[i].col) + "]; " + brief, p));
+            return vs;
+        }
+    }
     // the options handed to the peer: match_options carries the caller's verbose flag, as it does for the generated lexer
     for (size_t i = 0; i < o.rec.lexes.size(); ++i)
         if ((o.rec.lexes[i].verbose != 0) != o.op.verbose)
